@@ -22,6 +22,10 @@ rule("C17.a", "costs_only contract: the flag is honoured, a forwarded result is 
               "widenings of the cost vector after the costs_only return are mirrored in it, and no periodic merge follows it",
      floor=30, props=["C17", "C16"])
 
+rule("C17.p", "the cost vector returned under costs_only has the variables of the full problem also for wrappers: a wrapper hands costs_only on to an "
+              "inner set-up only if no inner set-up returns the vector before a periodic merge (known: D19-periodic) - otherwise it builds the full "
+              "inner problem and returns its c", floor=1, props=["C17", "C16"])
+
 FLAG = "costs_only"
 SETUP = "setup_optim_problem"
 
@@ -79,7 +83,7 @@ def _is_cost_carrier(e, roles=None) -> bool:
     return role(e, roles or {}) == "c"
 
 
-@analysis("costsonly", ["C17.a"])
+@analysis("costsonly", ["C17.a", "C17.p"])
 def run(ctx):
     p = ctx.p
     impls = []
@@ -88,6 +92,7 @@ def run(ctx):
         if fn is not None and fn.param(FLAG) is not None:
             impls.append(fn)
     ctx.require(len(impls) >= 12, "fewer than 12 implementations of %s take a %s parameter" % (SETUP, FLAG))
+    direct_bad = []
     for fn in impls:
         abstract = all(isinstance(s, (ast.Pass, ast.Expr)) for s in fn.body)
         if abstract:
@@ -184,3 +189,20 @@ def run(ctx):
                "with periodicity set the full problem joins periodic variables (fewer variables), but the vector returned under "
                "%s was produced before the merge and is never merged: lengths differ (24 vs 48)" % FLAG,
                node=(merges[0] if merges else first_ret))
+        if merges:
+            direct_bad.append(fn)
+
+
+    # ---- C17.p: a wrapper that takes its costs_only vector from an inner set-up inherits what that set-up returns
+    for fn in impls:
+        if all(isinstance(s0, (ast.Pass, ast.Expr)) for s0 in fn.body):
+            continue
+        deleg = [c for c in p.calls_in(fn) if au.method_name(c) == SETUP and isinstance(c.func, ast.Attribute) and (au.path(c.func.value) or "").startswith("self.")
+                 and _passes_flag(c)]
+        for c in deleg:
+            ctx.ob("C17.p", fn, "costs_only handed to %s" % au.short(c.func.value, 40), not direct_bad,
+                   "%s takes its cost vector under %s from the inner set-up (%s). The inner set-ups of %s return that vector before the periodic "
+                   "variables are merged, so with a periodic asset inside the vector is longer than the cost vector of the full problem (288 entries "
+                   "against 240 variables): cost samples of an SLP / robust target no longer fit the problem. A wrapper that builds the full inner "
+                   "problem and returns its c is not affected" % (fn.qualname, FLAG, au.short(c, 60), ", ".join(sorted(f.cls.name for f in direct_bad)[:6])),
+                   node=c)
